@@ -331,6 +331,128 @@ theorem writeResult_pc (s : VmSt) (regs' : Regs) (dest n result : Nat) (s' : VmS
     subst h
     exact incPc_pc _ hpc
 
+
+theorem setOfErr_pc (r : Regs) (x y : Nat) : ((r.set regOF x).set regERR y) regPC = r regPC := by
+  simp [Regs.set, regPC, regOF, regERR]
+theorem setErrOf_pc (r : Regs) (x y : Nat) : ((r.set regERR x).set regOF y) regPC = r regPC := by
+  simp [Regs.set, regPC, regOF, regERR]
+
+theorem wideErrTail_pc (n : Nat) (s s' : VmSt) (dest : Nat) (v : Option Nat)
+    (h : wideErrTail n s dest v = (s', none)) (hpc : s.regs regPC + 4 < 2 ^ 64) : s'.regs regPC = s.regs regPC + 4 := by
+  unfold wideErrTail at h
+  split at h
+  · have := writeResult_pc _ _ _ _ _ _ h (by rw [setErrOf_pc]; exact hpc)
+    rw [this, setErrOf_pc]
+  · split at h
+    · have := writeResult_pc _ _ _ _ _ _ h (by rw [setErrOf_pc]; exact hpc)
+      rw [this, setErrOf_pc]
+    · cases h
+
+/-- **every wide-integer instruction that succeeds advances `$pc` by exactly four** (all 14 opcodes, any
+arguments of the table shape) -/
+theorem execWide_advances_4 (op : WideOp) (a b c d : Nat) (s s' : VmSt)
+    (h : execWide op [a, b, c, d] s = (s', none)) (hpc : s.regs regPC + 4 < 2 ^ 64) :
+    s'.regs regPC = s.regs regPC + 4 := by
+  have hOp : ∀ n dest b c op ind, wideOp n s dest b c op ind = (s', none) → s'.regs regPC = s.regs regPC + 4 := by
+    intro n dest b c op ind h
+    unfold wideOp at h
+    split at h
+    · cases h
+    · split at h
+      · cases h
+      · simp only [] at h
+        split at h
+        · cases h
+        · have := writeResult_pc _ _ _ _ _ _ h (by rw [setOfErr_pc]; exact hpc)
+          rw [this, setOfErr_pc]
+  have hMul : ∀ n dest b c il ir, wideMul n s dest b c il ir = (s', none) → s'.regs regPC = s.regs regPC + 4 := by
+    intro n dest b c il ir h
+    unfold wideMul at h
+    split at h
+    · cases h
+    · split at h
+      · cases h
+      · simp only [] at h
+        split at h
+        · cases h
+        · have := writeResult_pc _ _ _ _ _ _ h (by rw [setOfErr_pc]; exact hpc)
+          rw [this, setOfErr_pc]
+  have hDiv : ∀ n dest b c ir, wideDiv n s dest b c ir = (s', none) → s'.regs regPC = s.regs regPC + 4 := by
+    intro n dest b c ir h
+    unfold wideDiv at h
+    split at h
+    · cases h
+    · split at h
+      · cases h
+      · exact wideErrTail_pc _ _ _ _ _ h hpc
+  have hAm : ∀ n dest b c d, wideAddmod n s dest b c d = (s', none) → s'.regs regPC = s.regs regPC + 4 := by
+    intro n dest b c d h
+    unfold wideAddmod at h
+    split at h
+    · cases h
+    · exact wideErrTail_pc _ _ _ _ _ h hpc
+  have hMm : ∀ n dest b c d, wideMulmod n s dest b c d = (s', none) → s'.regs regPC = s.regs regPC + 4 := by
+    intro n dest b c d h
+    unfold wideMulmod at h
+    split at h
+    · cases h
+    · exact wideErrTail_pc _ _ _ _ _ h hpc
+  have hMd : ∀ n dest b c d, wideMuldiv n s dest b c d = (s', none) → s'.regs regPC = s.regs regPC + 4 := by
+    intro n dest b c d h
+    unfold wideMuldiv at h
+    split at h
+    · cases h
+    · simp only [] at h
+      split at h
+      · cases h
+      · have := writeResult_pc _ _ _ _ _ _ h (by rw [setOfErr_pc]; exact hpc)
+        rw [this, setOfErr_pc]
+  have hCm : ∀ n ra b c mode ind, wideCmp n s ra b c mode ind = (s', none) → s'.regs regPC = s.regs regPC + 4 := by
+    intro n ra b c mode ind h
+    unfold wideCmp at h
+    split at h
+    · cases h
+    · rename_i k hk
+      have hk16 : 16 ≤ k := by
+        unfold writeRegKey at hk
+        split at hk
+        · simp only [Except.ok.injEq] at hk; subst hk; simpa [regWRITABLE] using ‹ra ≥ regWRITABLE›
+        · cases hk
+      split at h
+      · cases h
+      · split at h
+        · cases h
+        · simp only [Prod.mk.injEq, and_true] at h
+          subst h
+          have h3 : (3 : Nat) ≠ k := by omega
+          simp [incPc, Regs.set, regPC, regOF, regERR, h3, satAdd, instrSize]
+          simp only [regPC] at hpc
+          omega
+  cases op <;> simp only [execWide] at h
+  case WDCM | WQCM => split at h; cases h; exact hCm _ _ _ _ _ _ h
+  case WDOP | WQOP => split at h; cases h; exact hOp _ _ _ _ _ _ h
+  case WDML | WQML => split at h; cases h; exact hMul _ _ _ _ _ _ h
+  case WDDV | WQDV => split at h; cases h; exact hDiv _ _ _ _ _ h
+  case WDMD | WQMD => exact hMd _ _ _ _ _ h
+  case WDAM | WQAM => exact hAm _ _ _ _ _ h
+  case WDMM | WQMM => exact hMm _ _ _ _ _ h
+
+/-- **memory frame of the write**: a failing write leaves memory as it was; a successful one changes no byte
+outside `[dest, dest + n)` and no allocation bound -/
+theorem writeResult_mem_frame (s : VmSt) (regs' : Regs) (dest n result : Nat) (hn : n ≤ memSize) :
+    ((writeResult s regs' dest n result).2 ≠ none → (writeResult s regs' dest n result).1.mem = s.mem) ∧
+    (∀ x, x < dest ∨ dest + n ≤ x → (writeResult s regs' dest n result).1.mem.bytes x = s.mem.bytes x) ∧
+    (writeResult s regs' dest n result).1.mem.stackLen = s.mem.stackLen ∧ (writeResult s regs' dest n result).1.mem.hp = s.mem.hp := by
+  rw [writeResult_spec s regs' dest n result hn]
+  split
+  · split
+    · split
+      · refine ⟨fun h => absurd rfl h, fun x hx => ?_, rfl, rfl⟩
+        apply store_other; rw [natBE_length]; exact hx
+      · exact ⟨fun _ => rfl, fun _ _ => rfl, rfl, rfl⟩
+    · exact ⟨fun _ => rfl, fun _ _ => rfl, rfl, rfl⟩
+  · exact ⟨fun _ => rfl, fun _ _ => rfl, rfl, rfl⟩
+
 /-! ### non-vacuity: a concrete state executed through the model -/
 
 def exMem : Mem := { stackLen := 128, hp := vmMaxRam, bytes := fun a => if a = 15 then 7 else if a = 31 then 5 else 0 }
